@@ -1,7 +1,7 @@
 (** C17 — proofs about the GENERATED placement arithmetic (Gen/C17Formulas_gen.v, regenerated from
     math.py / vmf.py / instancing.py on every run) against the specification operations of Rot/C17Base.v. *)
 From Coq Require Import Reals Lra Field.
-From SV Require Import Rot.C17Base Gen.C17Formulas_gen.
+From SV Require Import Rot.C17Base SM.C17Whole Gen.C17Formulas_gen.
 Open Scope R_scope.
 
 Ltac destr := repeat match goal with
@@ -254,3 +254,67 @@ End Orientation.
 (** Non-vacuity: the hypotheses are satisfiable (identity placement, unit scale). *)
 Example orth_example : orth (M 0 1 0 (-1) 0 0 0 0 1).
 Proof. unfold orth, mmul, mtrans, mid; cbn [aa ab ac ba bb bc ca cb cc]; f_equal; ring. Qed.
+
+(** ** The generated arithmetic as one object ([arith], SM/C17Whole.v) and its identity laws: placing at (0, I) changes
+    no point, direction, texture axis or orientation.  These are what makes a whole collapse equivariant in the placement
+    (SM/C17WholeProofs.v); each goes through the specification lemma of its generated function. *)
+Lemma vrot_identity : forall p, vrot p mid = p.
+Proof. intros; destr; unfold mid; vec_eq. Qed.
+
+Lemma uvplace_identity : forall ax, uvplace ax vzero mid = ax.
+Proof.
+  intros; destr; unfold uvplace, uvdir, vrot, dot, mid, vzero, Rdiv;
+    cbn [vx vy vz aa ab ac ba bb bc ca cb cc ux uy uz uoff uscale]; f_equal; ring.
+Qed.
+
+Lemma g_angle_imatmul_spec : forall a r, g_angle_imatmul a r = mmul a r.
+Proof. intros; destr; unfold g_angle_imatmul; vec_eq. Qed.
+
+Definition g_arith : arith := {|
+  ar_point := g_vec_localise;          (* Vec.localise: brush planes, vertices, displacement origins *)
+  ar_dir := g_fixup_key_direction;     (* direction keyvalues; displacement normals / offsets use the same rotation *)
+  ar_axis := g_uv_localise;            (* UVAxis.localise *)
+  ar_orient := g_angle_imatmul |}.     (* angles @= orient *)
+
+Lemma g_arith_identity : arith_identity g_arith.
+Proof.
+  unfold arith_identity, g_arith; cbn [ar_point ar_dir ar_axis ar_orient]. csplit; intros.
+  - apply localise_identity.
+  - rewrite fixup_key_direction_spec. apply vrot_identity.
+  - rewrite uv_localise_spec. apply uvplace_identity.
+  - rewrite g_angle_imatmul_spec. apply mmul_id_r.
+Qed.
+
+(** the other generated placement functions are the same arithmetic (so an item placed by any of them is covered) *)
+Lemma g_arith_covers_sites : forall p o m,
+  g_collapse_ent_origin p o m = ar_point g_arith p o m /\ g_fixup_key_position p o m = ar_point g_arith p o m /\
+  g_side_strata_point p o m = ar_point g_arith p o m /\ g_side_disp_pos p o m = ar_point g_arith p o m /\
+  g_side_vert_normal p m = ar_dir g_arith p m /\ g_side_vert_offset p m = ar_dir g_arith p m /\
+  g_side_vert_offset_norm p m = ar_dir g_arith p m.
+Proof.
+  intros. unfold g_arith; cbn [ar_point ar_dir].
+  pose proof (localise_point p o m) as L. pose proof (fixup_key_direction_spec p m) as Dr.
+  destruct (side_vertices_spec p o m) as [S1 _]. destruct (side_disp_spec p o m) as (S2 & S3 & S4 & S5).
+  csplit; congruence || (rewrite L; first [apply collapse_ent_origin_spec | apply fixup_key_position_spec]).
+Qed.
+
+(** what [transform g_arith] of c17_property means, item by item: a point is rotated by the instance matrix and then offset by
+    its origin, a direction is rotated, a texture axis is placed so that the texture moves with the geometry ([uvplace]), an
+    orientation is composed with the instance rotation *)
+Lemma g_arith_is_spec : forall D p (it : item D), place_item D g_arith p it = place_item D spec_arith p it.
+Proof.
+  intros D [o m] [v|v|u|r|d]; cbn [place_item fst snd g_arith spec_arith ar_point ar_dir ar_axis ar_orient].
+  - rewrite localise_point. reflexivity.
+  - rewrite fixup_key_direction_spec. reflexivity.
+  - rewrite uv_localise_spec. reflexivity.
+  - rewrite g_angle_imatmul_spec. reflexivity.
+  - reflexivity.
+Qed.
+
+Lemma transform_g_is_spec : forall D p (r : added D), transform D g_arith p r = transform D spec_arith p r.
+Proof.
+  intros D p [st l]. unfold transform. cbn [fst snd].
+  assert (E : List.map (place_item D g_arith p) l = List.map (place_item D spec_arith p) l).
+  { induction l as [|x l IH]; cbn [List.map]; [reflexivity|]. rewrite g_arith_is_spec, IH. reflexivity. }
+  rewrite E. reflexivity.
+Qed.
